@@ -156,6 +156,7 @@ def run_property(prop, tier="quick", facts_path=None, write_evidence=True, repo=
     seed = int(os.environ.get("VERIF_SEED", "0") or 0)
     mod = importlib.import_module("mhsa.rules." + prop.lower())
     tmp = None
+    extra = {}
     try:
         if facts_path is None:
             tmp, facts_path = extract(repo)
@@ -166,6 +167,17 @@ def run_property(prop, tier="quick", facts_path=None, write_evidence=True, repo=
         missing = [a for a in ANCHOR_FNS if not facts.has_fn(a)]
         mod.run(ctx)
         extra_release = None
+        extra = {}
+        if tier == "thorough" and repo == REPO:
+            from . import thorough
+            cc = thorough.text_crosscount(facts, repo)
+            extra["text_crosscount"] = cc
+            ctx.ob("R00.extraction", "text-crosscount", cc.get("ok", False), "JSON fact base vs rustc -Zunpretty=mir text dump: %s" % {k: v for k, v in cc.items() if k != "ok"})
+            if prop in ("C10", "C12", "C18"):
+                cl = thorough.clippy_cross(repo)
+                extra["clippy_disallowed_methods"] = cl
+                ctx.ob("R00.cross", "clippy-disallowed-methods", cl["ran"] and not cl["hits"], "independent type-resolved cross-reference (clippy::disallowed_methods, engine/clippy/clippy.toml): %s" % (cl["hits"] or "no hit"))
+            extra["mutant_selftest"] = thorough.mutant_selftest(prop)
         if tier == "thorough" and getattr(mod, "RELEASE_TOO", True) and repo == REPO:
             rtmp, rpath = extract(repo, release=True)
             try:
@@ -213,9 +225,20 @@ def run_property(prop, tier="quick", facts_path=None, write_evidence=True, repo=
         print("   rule %s at %s: %s" % (o.rule, o.loc or "-", o.msg))
         if o.witness:
             print("   witness: %s" % o.witness)
+    if not quiet and tier == "thorough" and extra.get("mutant_selftest") is not None:
+        st = extra["mutant_selftest"]
+        print("   self-test: %d/%d registered mutants of %s reported by its rules" % (sum(1 for x in st if x["status"] == "reported"), len(st), prop))
+        for x in st:
+            if x["status"] != "reported":
+                print("   self-test: %s %s" % (x["mutant"], x["status"]))
     wall = time.time() - t0
     if write_evidence:
         ev = evidence_json(prop, tier, seed, ctx, counts, viol, new, matched, wall, mod, extra_release)
+        if extra:
+            ev["coverage"].update(extra)
+            st = extra.get("mutant_selftest") or []
+            ev["coverage"]["mutants_tried"] = len(st)
+            ev["coverage"]["mutants_reported"] = sum(1 for x in st if x["status"] == "reported")
         with open(os.path.join(VERIF, "evidence", "%s.json" % prop), "w") as fh:
             json.dump(ev, fh, indent=1)
     return 1 if new else 0, ctx
